@@ -1514,9 +1514,56 @@ def _scalarise_records(mods: dict[str, Module], inv: dict, log: list[str]) -> No
                 self.n += 1
             return node
 
+    uid = [0]
+
+    def hoist(fn: ast.FunctionDef) -> int:
+        """`<stmt using Rec(A, B).f>` with impure A / B: the record is bound field by field first (`r__x = A; r__y = B`), keeping every evaluation and its order,
+        provided nothing impure of the statement is evaluated before the constructor and the constructor is not under a short circuit."""
+        done = 0
+        work: list[ast.AST] = [fn]
+        while work:
+            node = work.pop()
+            blocks = [getattr(node, fld) for fld in ("body", "orelse", "finalbody") if isinstance(getattr(node, fld, None), list)]
+            if isinstance(node, ast.Try):
+                blocks += [h.body for h in node.handlers]
+            for b in blocks:
+                i = 0
+                while i < len(b):
+                    st = b[i]
+                    if isinstance(st, (ast.Return, ast.Assign, ast.Expr, ast.AugAssign, ast.AnnAssign)) and getattr(st, "value", None) is not None:
+                        parents: dict[int, ast.AST] = {}
+                        for n_ in ast.walk(st.value):
+                            for ch in ast.iter_child_nodes(n_):
+                                parents[id(ch)] = n_
+                        cands = [n_ for n_ in ast.walk(st.value) if isinstance(n_, (ast.Attribute, ast.Subscript)) and ctor(n_.value) is not None and not all(_pure(a) for a in ctor(n_.value)[1])]
+                        if len(cands) == 1:
+                            sel = cands[0]
+                            cur, guarded = sel, False
+                            while id(cur) in parents:
+                                cur = parents[id(cur)]
+                                if isinstance(cur, (ast.IfExp, ast.BoolOp, ast.ListComp, ast.GeneratorExp, ast.SetComp, ast.DictComp, ast.Lambda)):
+                                    guarded = True
+                            inside = {id(x) for x in ast.walk(sel)}
+                            rest_pure = all(_pure(x) for x in ast.walk(st.value) if isinstance(x, ast.Call) and id(x) not in inside and not any(id(y) in inside for y in ast.walk(x)))
+                            # calls that *contain* the selection are evaluated after it: only siblings evaluated earlier matter; keep it simple - all other calls pure
+                            if not guarded and rest_pure:
+                                name, args = ctor(sel.value)
+                                uid[0] += 1
+                                names = [f for f, _ in recs[name]]
+                                fresh = [f"{name.strip('_').lower()}{uid[0]}__{f}" for f in names]
+                                pre = [ast.fix_missing_locations(ast.copy_location(ast.Assign(targets=[ast.Name(id=fr, ctx=ast.Store())], value=a), st)) for fr, a in zip(fresh, args)]
+                                sel.value = ast.copy_location(ast.Call(func=sel.value.func, args=[ast.Name(id=fr, ctx=ast.Load()) for fr in fresh], keywords=[]), sel.value)
+                                b[i:i] = pre
+                                i += len(pre)
+                                done += 1
+                    if isinstance(st, ast.stmt) and not isinstance(st, (*FuncNode, ast.ClassDef)):
+                        work.append(st)
+                    i += 1
+        return done
+
     for mod in mods.values():
         for q, _, fn in _functions_of(mod):
-            total = 0
+            total = hoist(fn)
             for _round in range(6):
                 d = Direct()
                 fn.body = [d.visit(st) for st in fn.body]
